@@ -209,10 +209,23 @@ class Session(object):
             ctx, ob, conc = q
             r = solve.check(ctx, ob, timeout, self.workdir)
             return q, r
+        again = []
         with ThreadPoolExecutor(max_workers=16) as pool:
             for (ctx, ob, conc), r in pool.map(work, queries):
-                if r['status'] != 'unsat':
+                if r['status'] == 'sat' or (r['status'] != 'unsat' and os.environ.get('GOWP_NO_RETRY')):
                     fails.append({'shape': conc, 'obligation': ob.name, 'status': r['status'], 'output': (r.get('output') or '')[:1500]})
+                elif r['status'] != 'unsat':
+                    again.append((ctx, ob, conc))
+        # calm retry (as for the function obligations): what timed out while sixteen queries ran at once is tried again,
+        # few at a time, with three times the time
+        def rework(q):
+            ctx, ob, conc = q
+            return q, solve.check(ctx, ob, timeout * 3, self.workdir)
+        if again:
+            with ThreadPoolExecutor(max_workers=4) as pool:
+                for (ctx, ob, conc), r in pool.map(rework, again):
+                    if r['status'] != 'unsat':
+                        fails.append({'shape': conc, 'obligation': ob.name, 'status': r['status'], 'output': (r.get('output') or '')[:1500]})
         return {'lemma': lem.name, 'box': dict((k, list(v_)) for k, v_ in box.items()), 'shapes': shapes, 'queries': len(queries), 'failures': fails, 'wall_s': round(time.time() - t0, 2)}
 
     def generate(self, full):
